@@ -193,6 +193,10 @@ func verifyOwners(entries []discovery.Entry, allowedOwners []*regexp.Regexp) (re
 		if entry.PathError != nil {
 			continue
 		}
+		if entry.Rule.Error.Err != nil {
+			// Invalid rules are already reported, there is no rule body to point at.
+			continue
+		}
 		if entry.Owner == "" {
 			reports = append(reports, reporter.Report{
 				Path:          entry.Path,
